@@ -346,6 +346,12 @@ def constructed(draw):
                     try_insert(s, child)
                 elif not want and present:
                     try_remove(s, name)
+            uids = [k for k in s.get("k", []) if k["n"] == "userId"]
+            if uids and draw(st.booleans()):
+                # several user ids: any one of them may be the ORCID, in any position
+                for _ in range(draw(st.integers(1, 2))):
+                    i = s["k"].index(uids[0])
+                    s["k"].insert(i + draw(st.integers(0, 1)), {"n": "userId", "c": "id-%d" % _, "a": {"directory": "x"}})
             for k in s.get("k", []):
                 if k["n"] == "userId":
                     k.setdefault("a", {})["directory"] = draw(st.sampled_from(
